@@ -66,12 +66,14 @@ CHECKS = {
     "C08": dict(
         level="exploration",
         technique="deterministic simulation with storage-fault injection on durable records (byte substitution/loss/duplication/insertion, torn tail, misdirected record, field swap, NUL/non-ASCII, bytes for text); thorough tier enumerates the single-fault neighbourhood; independent field extractor as oracle",
-        text="Stored hashes of a generated user table (21-scheme palette, optional unix_disabled / plaintext at the end) are damaged the way "
+        text="Stored hashes of a generated user table (45-format palette incl. sun_md5_crypt, fshp, the LDAP / Django / MS-SQL / Oracle / grub / "
+             "Atlassian families and {CRYPT}- / bcrypt$-prefixed wrappers; optional unix_disabled / plaintext at the end) are damaged the way "
              "storage damages records and pushed through the login path -- identify, verify, needs_update, verify_and_update on the bare handler "
              "and on the context, as text and bytes. identify must answer without raising; everything else answers or raises ValueError/TypeError; "
              "if the original password still verifies, an independent extractor must decode the same cost, salt bits, digest bits and variant from "
              "both strings (value-exact, spelling-lenient: hex case, padding bits, '=' padding, blanks/zero padding around decimals, bcrypt "
-             "2a/2b/2y). Thorough: every position x 12 substitute bytes, all deletions, duplications, insertions, truncations per record.",
+             "2a/2b/2y, LDAP scheme-name case, and the two equivalences MS-SQL 2000 documents: only the upper-case digest takes part in "
+             "verification, and the record's first 54 characters are the MS-SQL 2005 hash of the same password). Thorough: every position x 12 substitute bytes, all deletions, duplications, insertions, truncations per record.",
         note="Bounded: palette formats only, single faults (15% cumulative); records whose damaged cost field asks for > ~30000 rounds / bcrypt cost > 8 are "
              "counted but not pushed through verify. The closing clause of C08 (no other spelling of the same bits accepted) is deliberately not enforced.",
         design_ref="DESIGN.md section 4 and Appendix C, C08"),
@@ -80,15 +82,16 @@ CHECKS = {
         technique="deterministic simulation: seeded interleavings of several clients deriving and using hashers from the shared passlib.hash objects, random source pinned by the simulator, per-node sequential settings model + non-interference snapshots of every untouched hasher",
         text="2-4 simulated clients run interleaved programs against the same process-wide hasher objects: derive(node, settings, relaxed) "
              "and derive-from-derived up to depth 4 (min/max/default/vary rounds and their aliases, rounds, salt_size, ident, version, block_size, "
-             "parallelism, truncate_error, marker; ints or strings; inside, at and beyond the hard limits), hash, needs_update on probe hashes "
+             "parallelism, fshp variant in every documented spelling, truncate_error, marker; ints or strings; inside, at and beyond the hard limits), hash, needs_update on probe hashes "
              "below/at/inside/above the window, attribute writes on a client's own derived hasher, backend switches, use of the globals. With the "
              "random source pinned every hash is a deterministic string, so 'exactly as before' is compared bit for bit: before and after every "
              "operation the snapshot (23 public attributes, verify/needs_update/identify on constant probe hashes, pinned-salt hash for cheap "
              "nodes) of every hasher the operation did not touch -- the globals and every parent in particular -- must be identical. The touched "
              "node is compared with a sequential model of using(): cost = default clipped into the window (or inside it when varying), salt size, "
-             "ident, needs_update exactly outside the window, ValueError beyond hard limits when strict, clamped when relaxed, never a hash outside them.",
-        note="Which inconsistent min/max/default combinations must be refused is not modelled (a refusal is always accepted). 21-hasher palette; scram, "
-             "argon2, fshp are outside it. Interleaving is at operation granularity (line-level interleaving of using() itself is C19's scheduler, not used here).",
+             "ident and algorithm variant (fshp variant, bcrypt_sha256 version, scrypt block_size / parallelism as carried by the hash), truncation policy, "
+             "needs_update exactly outside the window, ValueError beyond hard limits when strict, clamped when relaxed, never a hash outside them.",
+        note="Which inconsistent min/max/default combinations must be refused is not modelled (a refusal is always accepted). 22-hasher palette; scram and "
+             "argon2 are outside it. Interleaving is at operation granularity (line-level interleaving of using() itself is C19's scheduler, not used here).",
         design_ref="DESIGN.md section 4, C09"),
     "C10": dict(
         level="fault_enumeration",
@@ -103,7 +106,9 @@ CHECKS = {
              "identify / needs_update per category / verify right+wrong on probe hashes at low/middle/high cost, hash() under a pinned random "
              "source) must be identical. Export/import through dict, resolved dict, INI string (two sections), file and copy must preserve the "
              "snapshot; update() must equal a rebuild from the merged dictionary.",
-        note="Enumeration is complete per generated (configuration, change) within: <=5 schemes, <=2 categories, the 21 invalid-item kinds, 5 exception "
+        note="In 30% of the runs a scheme that takes the context keyword user= (postgres_md5, oracle10, cisco_pix) is configured and every probing call "
+             "carries user=, which the context must keep filtering for the other schemes. "
+             "Enumeration is complete per generated (configuration, change) within: <=5 schemes, <=2 categories, the 21 invalid-item kinds, 5 exception "
              "types; configurations themselves are sampled. Upper-case category names do not survive INI (ConfigParser lower-cases) and are outside the domain.",
         design_ref="DESIGN.md section 4, C10"),
     "C13": dict(
@@ -121,7 +126,8 @@ CHECKS = {
         technique="deterministic discrete-event simulation with fault injection (clock skew/steps, delayed/duplicated/dropped/reordered/replayed submissions, server restarts), reference matcher + history invariants + bounded liveness",
         text="Seeded search over histories of a simulated login service: devices with skewed/stepping clocks, a network that delays, "
              "duplicates, drops and reorders submissions, an attacker replaying and forging codes, server clock steps and restarts from "
-             "the durable record. Every server decision of the real TOTP.match() is compared with a reference matcher written from the "
+             "the durable record. Every server decision of the real TOTP.match() -- a quarter of them through the stateless one-shot "
+             "TOTP.verify(token, serialised or live source, ...) -- is compared with a reference matcher written from the "
              "statement, evaluated at the time the server's clock actually returned (recorded at the seam); accepted counters must strictly "
              "increase per account; in fault-free runs an in-sync device's fresh code must be accepted at first delivery. Two steered "
              "scenarios reach what random histories cannot: 'collide' lets the reference search 1500-4000 counters for two with the same "
